@@ -457,6 +457,92 @@ func detProcessLocalWrites(r *Run, sc *Scopes, onlyPkgs ...string) {
 			r.Bad("R1", inst, P.Pos(instrPos(in)), "consensus-reachable code writes process-local memory ("+kind+" into "+strings.TrimPrefix(what, haqqMod+"/")+"): the value lives only in this process, so a node restarted between blocks (or a second replica) continues with different in-memory state", sc.S.Chain(fn)...)
 		})
 	}
+	// maps held in a field of a process-local struct: delete()/clear() on them, and handing them to a function that
+	// writes into its map parameter (one level of summary)
+	fieldHeld := func(v ssa.Value) (string, bool) {
+		what, ok := "", false
+		backSlice(v).Any(func(x ssa.Value) bool {
+			if fa, isFA := x.(*ssa.FieldAddr); isFA && isProcessLocalType(fa.X.Type()) {
+				if _, isMap := deref(fa.Type()).Underlying().(*types.Map); isMap {
+					sn, f, _ := fieldOfAddr(fa)
+					what, ok = namedPkgPath(fa.X.Type())+"."+sn+"."+f, true
+				}
+			}
+			if fv, isF := x.(*ssa.Field); isF && isProcessLocalType(fv.X.Type()) {
+				if _, isMap := fv.Type().Underlying().(*types.Map); isMap {
+					sn, f, _ := fieldOfValue(fv)
+					what, ok = namedPkgPath(fv.X.Type())+"."+sn+"."+f, true
+				}
+			}
+			return ok
+		})
+		return what, ok
+	}
+	mutatesMapParam := func(fn *ssa.Function) map[int]bool {
+		out := map[int]bool{}
+		if fn == nil || fn.Blocks == nil {
+			return out
+		}
+		for _, f := range withAnon(fn) {
+			eachInstr(f, func(in ssa.Instruction) {
+				var m ssa.Value
+				switch x := in.(type) {
+				case *ssa.MapUpdate:
+					m = x.Map
+				case *ssa.Call:
+					if b, ok := x.Call.Value.(*ssa.Builtin); ok && (b.Name() == "delete" || b.Name() == "clear") && len(x.Call.Args) > 0 {
+						m = x.Call.Args[0]
+					}
+				}
+				if m == nil {
+					return
+				}
+				if p, ok := stripValue(m).(*ssa.Parameter); ok {
+					out[paramIndex(fn, p)] = true
+				}
+			})
+		}
+		return out
+	}
+	for _, fn := range sc.S.HaqqFuncs() {
+		if isTestSupport(P, fn) || isGeneratedFile(P.FileOf(fnPos(fn))) || !inOnly(fn) {
+			continue
+		}
+		eachInstr(fn, func(in ssa.Instruction) {
+			c, ok := in.(ssa.CallInstruction)
+			if !ok {
+				return
+			}
+			if b, isB := c.Common().Value.(*ssa.Builtin); isB {
+				if (b.Name() == "delete" || b.Name() == "clear") && len(c.Common().Args) > 0 {
+					if what, held := fieldHeld(c.Common().Args[0]); held {
+						n++
+						bad++
+						r.Bad("R1", fmt.Sprintf("%s#%s-on-%s", fnID(fn), b.Name(), strings.TrimPrefix(what, haqqMod+"/")), P.Pos(instrPos(in)), "consensus-reachable code removes entries from a map held by "+strings.TrimPrefix(what, haqqMod+"/")+": the map is process-local state shared by every transaction, simulation and CheckTx the process handles", sc.S.Chain(fn)...)
+					}
+				}
+				return
+			}
+			callee := c.Common().StaticCallee()
+			if callee == nil || !isHaqqPath(fnPkgPath(callee)) {
+				return
+			}
+			mp := mutatesMapParam(callee)
+			if len(mp) == 0 {
+				return
+			}
+			for i, a := range c.Common().Args {
+				if !mp[i] {
+					continue
+				}
+				if what, held := fieldHeld(a); held {
+					n++
+					bad++
+					r.Bad("R1", fmt.Sprintf("%s#passes-%s-to-%s", fnID(fn), strings.TrimPrefix(what, haqqMod+"/"), callee.Name()), P.Pos(instrPos(in)), "consensus-reachable code hands a map held by "+strings.TrimPrefix(what, haqqMod+"/")+" to "+fnID(callee)+", which writes into it: per-transaction bookkeeping kept in a process-local map survives failed transactions, simulations and CheckTx calls that only this node saw", sc.S.Chain(fn)...)
+				}
+			}
+		})
+	}
 	// concurrent/caching containers held by process-local structs: mutating method calls
 	for _, fn := range sc.S.HaqqFuncs() {
 		if isTestSupport(P, fn) || isGeneratedFile(P.FileOf(fnPos(fn))) || !inOnly(fn) {
